@@ -27,6 +27,9 @@ type c07Params struct {
 	SlowSink bool `json:"slow_sink,omitempty"`
 	// Timed: every second iteration performs its behaviour inside a t.Time(...) stage
 	Timed bool `json:"timed,omitempty"`
+	// CleanupFaults: two iterations in three register a cleanup that fails, stops or panics; that is after their own
+	// outcome was taken and says nothing about the next iteration on the worker
+	CleanupFaults bool `json:"cleanup_faults,omitempty"`
 	Desc        string `json:"desc"`
 }
 
@@ -193,6 +196,25 @@ func init() {
 				sp.Desc += " fail-through-setup-handle"
 				last.P = core.MustJSON(sp)
 			}
+			// iteration cleanups that fail, stop or panic: the iteration keeps its own outcome and the next one on the worker
+			// starts clean
+			ncf := 6
+			if tier == "thorough" {
+				ncf = 40
+			}
+			for k := 0; k < ncf; k++ {
+				if k%2 == 0 {
+					add(modes[k%len(modes)], []int{engine.BPass}, false, "pass")
+				} else {
+					add(modes[k%len(modes)], all, false, "all")
+				}
+				last := &cs[len(cs)-1]
+				var cp c07Params
+				last.Params(&cp)
+				cp.CleanupFaults = true
+				cp.Desc += " failing-iteration-cleanups"
+				last.P = core.MustJSON(cp)
+			}
 			return cs
 		},
 		Kinds:  map[string]core.RunFunc{"run": c07Run},
@@ -297,6 +319,10 @@ func c07Once(c *core.Case, o *core.Outcome, p c07Params, reg *scenarios.Scenario
 				setupHandleMarks++
 				mu.Unlock()
 			}
+			if p.CleanupFaults && id%3 != 0 {
+				fk := 1 + int(id/3)%4
+				t.Cleanup(func() { cleanupFault(t, fk) })
+			}
 			mu.Lock()
 			if lk, ok := lastKindOnHandle[t]; ok && lk != engine.BPass {
 				reuseAfterFailure++
@@ -398,7 +424,7 @@ func c07Once(c *core.Case, o *core.Outcome, p c07Params, reg *scenarios.Scenario
 		if len(p.Kinds) == 1 {
 			name = engine.BehaviourNames[p.Kinds[0]]
 		}
-		o.Sig("mode=%s:kinds=%s:barrier=%v:procs=%d:setuphandle=%v:timed=%v:quiet=%v", p.Spec.Mode, name, p.Barrier, c.Procs, p.SetupHandle, p.Timed, p.Spec.QuietLogger)
+		o.Sig("mode=%s:kinds=%s:barrier=%v:procs=%d:setuphandle=%v:timed=%v:quiet=%v:cleanupfaults=%v", p.Spec.Mode, name, p.Barrier, c.Procs, p.SetupHandle, p.Timed, p.Spec.QuietLogger, p.CleanupFaults)
 	}
 	o.Sample = map[string]any{"case": p.Desc, "plan": kindsDesc, "result_success": su, "result_failed": fa, "reuse_after_failure": reuseAfterFailure, "barrier_rounds": bar.rounds}
 	return ret
